@@ -179,3 +179,254 @@ Lemma inadmissible_can_panic :
   scenario_pipeline {| sc_flags := {| if_plus := false; if_certmgr := false |}; sc_ctx := CEmpty;
                        sc_shape := neither_shape |} = OPanic.
 Proof. vm_compute. split; reflexivity. Qed.
+
+(* ================================================================== custom resources *)
+
+Lemma all_act_sh_complete : forall a : act_sh, In a all_act_sh. Proof. fin. Qed.
+Lemma all_act2_sh_complete : forall a : act2_sh, In a all_act2_sh. Proof. fin. Qed.
+Lemma all_msplits_sh_complete : forall a : msplits_sh, In a all_msplits_sh. Proof. fin. Qed.
+Lemma all_optbool_complete : forall o : option bool, In o all_optbool.
+Proof. intros [[|]|]; simpl; tauto. Qed.
+
+Lemma all_splits_sh_complete : forall s : splits_sh, In s all_splits_sh.
+Proof.
+  intros [| |a b]; unfold all_splits_sh.
+  - left; reflexivity.
+  - right; left; reflexivity.
+  - right; right. apply in_flat_map. exists a. split; [apply all_act2_sh_complete | apply in_map, all_act2_sh_complete].
+Qed.
+
+Lemma all_match_sh_complete : forall m : match_sh, In m all_match_sh.
+Proof.
+  intros [|c a s]; unfold all_match_sh.
+  - left; reflexivity.
+  - right. apply in_flat_map. exists c. split; [apply all_bool_complete|].
+    apply in_flat_map. exists a. split; [apply all_bool_complete | apply in_map, all_msplits_sh_complete].
+Qed.
+
+Lemma all_errpage_sh_complete : forall e : errpage_sh, In e all_errpage_sh.
+Proof.
+  intros [|a b]; unfold all_errpage_sh.
+  - left; reflexivity.
+  - right. apply in_flat_map. exists a. split; [apply all_bool_complete | apply in_map, all_bool_complete].
+Qed.
+
+Lemma all_route_sh_complete : forall r : route_sh, In r all_route_sh.
+Proof.
+  intros [a s m e r]. unfold all_route_sh.
+  apply in_flat_map. exists a. split; [apply all_act_sh_complete|].
+  apply in_flat_map. exists s. split; [apply all_splits_sh_complete|].
+  apply in_flat_map. exists m. split; [apply all_match_sh_complete|].
+  apply in_flat_map. exists e. split; [apply all_errpage_sh_complete|].
+  apply in_map_iff. exists r. split; [reflexivity | apply all_bool_complete].
+Qed.
+
+Lemma all_tls_sh_complete : forall t : tls_sh, In t all_tls_sh.
+Proof.
+  intros [|s r c]; unfold all_tls_sh.
+  - left; reflexivity.
+  - right. apply in_flat_map. exists s. split; [apply all_bool_complete|].
+    apply in_flat_map. exists r. split; [apply all_optbool_complete | apply in_map, all_bool_complete].
+Qed.
+
+Lemma all_up_sh_complete : forall u : up_sh, In u all_up_sh.
+Proof. intros [ |[|]| | | | | | | ]; simpl; tauto. Qed.
+
+Theorem all_vs_shapes_complete : forall s : vs_shape, In s all_vs_shapes.
+Proof.
+  intros [|r|t l|u]; unfold all_vs_shapes.
+  - left; reflexivity.
+  - right. apply in_or_app. left. apply in_map, all_route_sh_complete.
+  - right. apply in_or_app. right. apply in_or_app. left.
+    apply in_flat_map. exists t. split; [apply all_tls_sh_complete | apply in_map, all_bool_complete].
+  - right. apply in_or_app. right. apply in_or_app. right. apply in_map, all_up_sh_complete.
+Qed.
+
+Theorem all_vsr_shapes_complete : forall s : vsr_shape, In s all_vsr_shapes.
+Proof.
+  intros [|r|u]; unfold all_vsr_shapes.
+  - left; reflexivity.
+  - right. apply in_or_app. left. apply in_map, all_route_sh_complete.
+  - right. apply in_or_app. right. apply in_map, all_up_sh_complete.
+Qed.
+
+Lemma all_vctx_complete : forall c : vctx, In c all_vctx. Proof. fin. Qed.
+Lemma all_rctx_complete : forall c : rctx, In c all_rctx. Proof. fin. Qed.
+Lemma all_tctx_complete : forall c : tctx, In c all_tctx. Proof. fin. Qed.
+Lemma all_ts_listener_complete : forall l : ts_listener, In l all_ts_listener. Proof. fin. Qed.
+
+Lemma all_tsup_sh_complete : forall u : tsup_sh, In u all_tsup_sh.
+Proof.
+  intros [|h]; unfold all_tsup_sh; [left; reflexivity | right; apply in_map, all_optbool_complete].
+Qed.
+
+Theorem all_ts_shapes_complete : forall s : ts_shape, In s all_ts_shapes.
+Proof.
+  intros [l h t u p s a]. unfold all_ts_shapes.
+  apply in_flat_map. exists l. split; [apply all_ts_listener_complete|].
+  apply in_flat_map. exists h. split; [apply all_bool_complete|].
+  apply in_flat_map. exists t. split; [apply all_optbool_complete|].
+  apply in_flat_map. exists u. split; [apply all_tsup_sh_complete|].
+  apply in_flat_map. exists p. split; [apply all_optbool_complete|].
+  apply in_flat_map. exists s. split; [apply all_bool_complete|].
+  apply in_map_iff. exists a. split; [reflexivity | apply all_optbool_complete].
+Qed.
+
+Lemma all_rl_sh_complete : forall r : rl_sh, In r all_rl_sh.
+Proof.
+  intros [p c]. unfold all_rl_sh. apply in_flat_map. exists p.
+  split; [apply all_bool_complete | apply in_map, all_optbool_complete].
+Qed.
+Lemma all_ak_sh_complete : forall k : ak_sh, In k all_ak_sh.
+Proof.
+  intros [|h q]; unfold all_ak_sh; [left; reflexivity|]. right.
+  apply in_flat_map. exists h. split; [apply all_bool_complete | apply in_map, all_bool_complete].
+Qed.
+Lemma all_waf_sh_complete : forall w : waf_sh, In w all_waf_sh.
+Proof.
+  intros [l ls]. unfold all_waf_sh. apply in_flat_map. exists l.
+  split; [apply all_bool_complete | apply in_map, all_optbool_complete].
+Qed.
+
+Lemma all_polkind_sh_complete : forall k : polkind_sh, In k all_polkind_sh.
+Proof.
+  intros k. unfold all_polkind_sh.
+  destruct k as [a d|r| | |d|d|l|k|w].
+  - apply in_or_app. left. apply in_flat_map. exists a.
+    split; [apply all_bool_complete | apply in_map, all_bool_complete].
+  - apply in_or_app. right. apply in_or_app. left. apply in_map, all_rl_sh_complete.
+  - do 2 (apply in_or_app; right). apply in_or_app. left. simpl; tauto.
+  - do 2 (apply in_or_app; right). apply in_or_app. left. simpl; tauto.
+  - do 3 (apply in_or_app; right). apply in_or_app. left. apply in_map, all_bool_complete.
+  - do 4 (apply in_or_app; right). apply in_or_app. left. apply in_map, all_bool_complete.
+  - do 5 (apply in_or_app; right). apply in_or_app. left. apply in_map, all_bool_complete.
+  - do 6 (apply in_or_app; right). apply in_or_app. left. apply in_map, all_ak_sh_complete.
+  - do 7 (apply in_or_app; right). apply in_map, all_waf_sh_complete.
+Qed.
+
+Theorem all_pol_shapes_complete : forall s : pol_shape, In s all_pol_shapes.
+Proof.
+  intros [|k|k]; unfold all_pol_shapes.
+  - left; reflexivity.
+  - right. apply in_or_app. left. apply in_map, all_polkind_sh_complete.
+  - right. apply in_or_app. right. apply in_map, all_polkind_sh_complete.
+Qed.
+
+Theorem all_gc_shapes_complete : forall g : gc_shape, In g all_gc_shapes. Proof. fin. Qed.
+
+(* --- the sweeps *)
+
+Definition no_panic (o : outcome) : bool := negb (is_panic o).
+
+Definition vs_sweep : bool :=
+  forallb (fun plus => forallb (fun cm => forallb (fun c => forallb (fun s =>
+    no_panic (crd_worst (vs_observe plus cm c (vs_of s)))) all_vs_shapes) all_vctx) all_bool) all_bool.
+Lemma vs_sweep_ok : vs_sweep = true. Proof. vm_compute. reflexivity. Qed.
+
+Theorem vs_no_panic_shapes :
+  forall (fl : flags) (c : vctx) (s : vs_shape),
+    crd_worst (vs_observe (f_plus fl) (f_certmgr fl) c (vs_of s)) <> OPanic.
+Proof.
+  intros fl c s Hp. pose proof vs_sweep_ok as H. unfold vs_sweep in H.
+  rewrite forallb_forall in H. specialize (H (f_plus fl) (all_bool_complete _)).
+  rewrite forallb_forall in H. specialize (H (f_certmgr fl) (all_bool_complete _)).
+  rewrite forallb_forall in H. specialize (H c (all_vctx_complete _)).
+  rewrite forallb_forall in H. specialize (H s (all_vs_shapes_complete _)).
+  unfold no_panic in H. rewrite Hp in H. discriminate.
+Qed.
+
+Definition vsr_sweep : bool :=
+  forallb (fun plus => forallb (fun c => forallb (fun s =>
+    no_panic (crd_worst (vsr_observe plus c (vsr_of s)))) all_vsr_shapes) all_rctx) all_bool.
+Lemma vsr_sweep_ok : vsr_sweep = true. Proof. vm_compute. reflexivity. Qed.
+
+Theorem vsr_no_panic_shapes :
+  forall (fl : flags) (c : rctx) (s : vsr_shape),
+    crd_worst (vsr_observe (f_plus fl) c (vsr_of s)) <> OPanic.
+Proof.
+  intros fl c s Hp. pose proof vsr_sweep_ok as H. unfold vsr_sweep in H.
+  rewrite forallb_forall in H. specialize (H (f_plus fl) (all_bool_complete _)).
+  rewrite forallb_forall in H. specialize (H c (all_rctx_complete _)).
+  rewrite forallb_forall in H. specialize (H s (all_vsr_shapes_complete _)).
+  unfold no_panic in H. rewrite Hp in H. discriminate.
+Qed.
+
+Definition ts_sweep_with gen : bool :=
+  forallb (fun tp => forallb (fun c => forallb (fun s =>
+    no_panic (crd_worst (ts_observe_with gen tp c (ts_of s)))) all_ts_shapes) all_tctx) all_bool.
+Lemma ts_sweep_ok : ts_sweep_with gen_ts = true. Proof. vm_compute. reflexivity. Qed.
+
+Theorem ts_no_panic_shapes :
+  forall (fl : flags) (c : tctx) (s : ts_shape),
+    crd_worst (ts_observe (f_tlspass fl) c (ts_of s)) <> OPanic.
+Proof.
+  intros fl c s Hp. pose proof ts_sweep_ok as H. unfold ts_sweep_with in H.
+  rewrite forallb_forall in H. specialize (H (f_tlspass fl) (all_bool_complete _)).
+  rewrite forallb_forall in H. specialize (H c (all_tctx_complete _)).
+  rewrite forallb_forall in H. specialize (H s (all_ts_shapes_complete _)).
+  unfold no_panic in H. unfold ts_observe in Hp. rewrite Hp in H. discriminate.
+Qed.
+
+(* finding F43: [tls: {}] (a TLS block without a secret name) on a TransportServer without host,
+   attached to a TCP listener of the GlobalConfiguration: valid, and the unpatched generateSSLConfig
+   dereferences the missing SecretReference *)
+Definition f43_shape : ts_shape :=
+  {| tsh_listener := TLTcp; tsh_host := false; tsh_tls := Some false; tsh_up := TU1 None;
+     tsh_uparams := None; tsh_sparams := false; tsh_action := Some true |}.
+
+Theorem ts_no_panic_old_refuted :
+  exists tp c s, validate_ts tp (ts_of s) = false /\
+                 crd_worst (ts_observe_old tp c (ts_of s)) = OPanic.
+Proof. exists false, TCGlobal, f43_shape. vm_compute. split; reflexivity. Qed.
+
+Lemma f43_fixed_ok : crd_worst (ts_observe false TCGlobal (ts_of f43_shape)) = OOk.
+Proof. vm_compute. reflexivity. Qed.
+
+(* the old generator differs from the repaired one exactly on valid active shapes with an
+   empty TLS block *)
+Definition ts_old_differs_only_on_f43 : bool :=
+  forallb (fun tp => forallb (fun c => forallb (fun s =>
+    (match tsh_tls s with Some false => true | _ => false end) ||
+    outcome_eqb (crd_worst (ts_observe_old tp c (ts_of s))) (crd_worst (ts_observe tp c (ts_of s))))
+    all_ts_shapes) all_tctx) all_bool.
+Lemma ts_old_differs_only_on_f43_ok : ts_old_differs_only_on_f43 = true.
+Proof. vm_compute. reflexivity. Qed.
+
+Definition pol_sweep : bool :=
+  forallb (fun plus => forallb (fun ap => forallb (fun s =>
+    let o := pol_observe plus ap (policy_of s) in
+    no_panic (po_validate o) && no_panic (po_extend o)) all_pol_shapes) all_bool) all_bool.
+Lemma pol_sweep_ok : pol_sweep = true. Proof. vm_compute. reflexivity. Qed.
+
+Theorem pol_no_panic_shapes :
+  forall (fl : flags) (s : pol_shape),
+    let o := pol_observe (f_plus fl) (f_approtect fl) (policy_of s) in
+    po_validate o <> OPanic /\ po_extend o <> OPanic.
+Proof.
+  intros fl s. pose proof pol_sweep_ok as H. unfold pol_sweep in H.
+  rewrite forallb_forall in H. specialize (H (f_plus fl) (all_bool_complete _)).
+  rewrite forallb_forall in H. specialize (H (f_approtect fl) (all_bool_complete _)).
+  rewrite forallb_forall in H. specialize (H s (all_pol_shapes_complete _)).
+  cbv zeta in *. apply andb_true_iff in H. destruct H as [H1 H2]. unfold no_panic in *.
+  split; intros Hp; [rewrite Hp in H1 | rewrite Hp in H2]; discriminate.
+Qed.
+
+(* the validator's guard is what makes the generator's dereferences safe: a rate-limit
+   condition without jwt, or an apiKey without suppliedIn, is rejected, and would panic in
+   addRateLimitConfig / addAPIKeyConfig if it were not *)
+Lemma policy_guards_needed :
+  validate_policy true true true (policy_of (Po1 (KRate (Rl false (Some false))))) = true /\
+  gen_policy (policy_of (Po1 (KRate (Rl false (Some false))))) = Pan /\
+  validate_policy true true true (policy_of (Po1 (KApiKey Ak0))) = true /\
+  gen_policy (policy_of (Po1 (KApiKey Ak0))) = Pan.
+Proof. vm_compute. repeat split. Qed.
+
+(* likewise for routes: a route without action, splits or route reference is rejected and
+   would panic in GetNameForUpstreamFromAction *)
+Lemma route_guard_needed :
+  let r := route_of {| rs_action := ActNil; rs_splits := Sp0; rs_matches := Mt0; rs_errpages := Ep0; rs_route := false |} in
+  validate_route false r = true /\ gen_route true r = Pan.
+Proof. vm_compute. split; reflexivity. Qed.
+
+Theorem gc_no_panic_shapes : forall g : gc_shape, crd_worst (gc_observe g) <> OPanic.
+Proof. intros [ | | | | ]; vm_compute; discriminate. Qed.
